@@ -592,7 +592,7 @@ def run(ck: core.Check):
 PARTIAL_GAP = [
     "asterisk_expand / asterisk_broadcast / column_perm are proved for every schema; short_eq_long and message_text_eq_main_arg for the flow row schema with the T1 tables, for arbitrary other columns and cell texts",
     "layout_independent_partial (spread vs packed) holds for the family of C07's parse_unparse_partial; positional_eq_keyword_partial for records of basic-typed fields (positional prefix of any length vs the key/value cell); the general statements layout_independent_full / positional_eq_keyword_full (nested records, mixed positional+keyword entries, lists of records) are stated, not proved — exercised by tie + oracle",
-    "short headers are proved equal to the long `*` forms (edges.*.from_ …); that a pre-parsed element of a `*` column equals the raw cell of the indexed column (edges.1.from) relies on the leaf being a string field — shown on concrete rows by kernel evaluation and by the tie, not as a general theorem",
+    "short headers are proved equal to the long `*` forms (edges.*.from_ …) for whole rows, and each element of such a `*` column equal to the cell of the indexed column edges.k.… (star_element_eq_indexed_cell, per entry); the two are not composed into one whole-row theorem `short row = fully indexed row` (needs the splitting of the joined cell, C08's split_join, threaded through the fold) — that composition is shown on concrete rows by kernel evaluation and by the tie/oracle",
 ]
 
 
